@@ -173,6 +173,30 @@ example :
       = .ok [[(some (255, 0, 0), some (255, 0, 0)), (none, some (0, 255, 0))]] := by
   rfl
 
+/-! ## the canvas is an immutable value -/
+
+/-- CONTENT IS PURE. What `content` yields depends only on the canvas value (its size, the image size it was
+    rendered with, its lines) and on the widget's two alignments, which are fixed at construction — not on the
+    size the widget's image has when `content` is called. Rendering the same widget (or another widget sharing
+    the image) at another size, or resizing the image, between `render` and `content` changes nothing: same
+    canvas value ⇒ same rows, for every request. -/
+theorem content_pure (ws ws' : WidgetState) (cv : CanvasVal) (hh : ws.hAlign = ws'.hAlign) (hv : ws.vAlign = ws'.vAlign)
+    (tl tt c r : Int) : contentAt ws cv tl tt c r = contentAt ws' cv tl tt c r := by
+  unfold contentAt; rw [hh, hv]
+
+/-- … hence every crop theorem above holds at any later time: `contentAt` of the canvas built from an image is
+    `textContent` of `cellCanvas`, whatever the image's size has become -/
+theorem content_pure_crop (img : List (List Cell)) (w h : Nat) (ha va : Align) (W H : Nat) (later : Int × Int)
+    (tl tt c r : Int) :
+    contentAt ⟨ha, va, later⟩
+      ⟨W, H, w, h, (cellCanvas img w h ha va W H).lines⟩ tl tt c r =
+    textContent (cellCanvas img w h ha va W H) tl tt c r := by
+  rfl
+
+example : contentAt ⟨.mid, .mid, (1, 1)⟩ ⟨2, 1, 1, 1, [[Tok.bg (1, 2, 3), Tok.glyph .blank, Tok.sgr0, Tok.glyph .blank, Tok.nul, Tok.nul]]⟩ 0 0 1 1
+    = contentAt ⟨.mid, .mid, (7, 9)⟩ ⟨2, 1, 1, 1, [[Tok.bg (1, 2, 3), Tok.glyph .blank, Tok.sgr0, Tok.glyph .blank, Tok.nul, Tok.nul]]⟩ 0 0 1 1 :=
+  content_pure _ _ _ rfl rfl _ _ _ _
+
 /-! ## graphics-based images -/
 
 /-- VERTICAL trimming selects exactly the corresponding lines (each with the same disguise) -/
